@@ -295,8 +295,8 @@ theorem sameBook_pollerPoll (s : State) (ready) (nret) : SameBook s (pollerPoll 
   | epoll =>
     simp only
     split
-    · exact ⟨rfl, rfl, rfl, rfl, rfl⟩
     · split
+      · exact ⟨rfl, rfl, rfl, rfl, rfl⟩
       · have h := sameBook_epollFill ready (emit s (.wait s.evsize kPollTimeMs)) []
         generalize epollFill (emit s (.wait s.evsize kPollTimeMs)) ready [] = p at h
         obtain ⟨s1, act⟩ := p
@@ -305,7 +305,7 @@ theorem sameBook_pollerPoll (s : State) (ready) (nret) : SameBook s (pollerPoll 
         · exact SameBook.trans (b := emit s (.wait s.evsize kPollTimeMs)) ⟨rfl, rfl, rfl, rfl, rfl⟩
             (SameBook.trans h ⟨rfl, rfl, rfl, rfl, rfl⟩)
         · exact SameBook.trans (b := emit s (.wait s.evsize kPollTimeMs)) ⟨rfl, rfl, rfl, rfl, rfl⟩ h
-      · exact ⟨rfl, rfl, rfl, rfl, rfl⟩
+    · exact ⟨rfl, rfl, rfl, rfl, rfl⟩
 
 
 theorem pollerPoll_poll_spec {s : State} (hbe : s.be = .poll) (hs : PollStruct s) (ready) (nret) :
@@ -332,9 +332,9 @@ theorem pollerPoll_epoll_spec {t : State} (hbe : t.be = .epoll) (hs : EpStruct t
   simp only
   have hn : ¬ (ready.length > (emit t (.wait t.evsize kPollTimeMs)).evsize ∨ nret ≠ ready.length) := by
     simp only [emit]; omega
-  rw [if_neg hn]
-  split
-  · obtain ⟨e1, e2⟩ := epollFill_spec ready (emit t (.wait t.evsize kPollTimeMs)) []
+  by_cases hz : epHasEvents (nret : Int)
+  · rw [if_pos hz, if_neg hn]
+    obtain ⟨e1, e2⟩ := epollFill_spec ready (emit t (.wait t.evsize kPollTimeMs)) []
       (fun p hp => (hs.kernel_cmap (h3 p hp)).1) hnd
     generalize epollFill (emit t (.wait t.evsize kPollTimeMs)) ready [] = r at e1 e2
     obtain ⟨s1, act⟩ := r
@@ -342,7 +342,7 @@ theorem pollerPoll_epoll_spec {t : State} (hbe : t.be = .epoll) (hs : EpStruct t
     split
     · exact ⟨by simpa using e1, fun c => by simpa [emit] using e2 c⟩
     · exact ⟨by simpa using e1, fun c => by simpa [emit] using e2 c⟩
-  · rename_i hz
+  · rw [if_neg hz]
     have : ready = [] := by
       unfold epHasEvents at hz
       cases ready with
